@@ -3,6 +3,7 @@ package wire
 import (
 	"math/big"
 	"math/rand"
+	"strings"
 
 	vmcommon "github.com/ElrondNetwork/elrond-vm-common"
 	"github.com/ElrondNetwork/elrond-vm-common/data/esdt"
@@ -221,4 +222,123 @@ func RandMsg(r *rand.Rand) Row {
 		}
 	}
 	return Row{"k": "msg", "src": "rand", "which": I([]byte(which)), "items": items, "call": II(call), "sk": r.Intn(2), "dk": r.Intn(2)}
+}
+
+// ---------------------------------------------------------------------------------------------------------------------
+// Other messages of the built-in functions' own encoder ("omsg" rows):
+//   sub = "xcall":    a same-shard ESDTNFTTransfer / MultiESDTNFTTransfer to a CONTRACT with an attached call: the emitted
+//                     output transfer carries the call itself (function name raw, every argument hex-encoded);
+//   sub = "handover": ESDTNFTCreateRoleTransfer at the current holder of the create role whose counter is `ctr`, new holder
+//                     on the other shard: the emitted message carries the token id and the counter.
+// The row records the inputs and what was emitted / parsed; the expectation is the specification's.
+
+func rolesBytes(roles ...string) []byte {
+	r := &esdt.ESDTRoles{}
+	for _, x := range roles {
+		r.Roles = append(r.Roles, []byte(x))
+	}
+	b, err := r.Marshal()
+	if err != nil {
+		panic("wire: " + err.Error())
+	}
+	return b
+}
+
+// ProcessOMsg executes one such call and parses the data string it emits.
+func ProcessOMsg(in Row) (Row, string) {
+	sub := S(in["sub"])
+	tok, ctr, call := B(in["tok"]), B(in["ctr"]), BB(in["call"])
+	out := Row{"k": "omsg", "src": src(in), "sub": sub, "tok": I(tok), "ctr": I(ctr), "call": II(call)}
+	w, err := world.New(world.Config{NShards: 2, Gas: world.StdGas(0)}, world.StdAddrs(2))
+	if err != nil {
+		panic("wire: " + err.Error())
+	}
+	w.ConfirmEpoch(1)
+	snd := w.Addr("u0a")
+	acc := world.NewAccount(snd, w.Shards[0])
+	var c *world.Call
+	var dst []byte
+	switch sub {
+	case "xcall":
+		dst = w.Addr("c0a")
+		n := new(big.Int).SetBytes(ctr).Uint64()%250 + 1
+		t := &esdt.ESDigitalToken{Type: uint32(vmcommon.NonFungible), Value: new(big.Int).Set(hugeBalance),
+			TokenMetaData: &esdt.MetaData{Nonce: n, Name: []byte("name"), Creator: snd, Hash: []byte{1, 2}, URIs: [][]byte{[]byte("uri")}, Attributes: []byte{}}}
+		b, err := t.Marshal()
+		if err != nil {
+			panic("wire: " + err.Error())
+		}
+		acc.Storage[string(tokenKey(tok, n))] = b
+		nb := new(big.Int).SetUint64(n).Bytes()
+		if len(ctr)%2 == 0 {
+			c = &world.Call{Fn: vmcommon.BuiltInFunctionESDTNFTTransfer, Args: [][]byte{tok, nb, {1}, dst}}
+		} else {
+			c = &world.Call{Fn: vmcommon.BuiltInFunctionMultiESDTNFTTransfer, Args: [][]byte{dst, {1}, tok, nb, {1}}}
+		}
+		c.Args = append(c.Args, call...)
+		c.Caller, c.Rcpt = snd, snd
+	case "handover":
+		dst = w.Addr("u1a")
+		acc.Storage[vmcommon.ElrondProtectedKeyPrefix+vmcommon.ESDTRoleIdentifier+vmcommon.ESDTKeyIdentifier+string(tok)] = rolesBytes(vmcommon.ESDTRoleNFTCreate, vmcommon.ESDTRoleNFTBurn)
+		if len(ctr) > 0 {
+			acc.Storage[vmcommon.ElrondProtectedKeyPrefix+vmcommon.ESDTNFTLatestNonceIdentifier+string(tok)] = append([]byte{}, ctr...)
+		}
+		c = &world.Call{Fn: vmcommon.BuiltInFunctionESDTNFTCreateRoleTransfer, Caller: w.Addr("esdtsc"), Rcpt: snd, Args: [][]byte{tok, dst}}
+	default:
+		panic("wire: unknown omsg row " + sub)
+	}
+	if err := w.Shards[0].SaveAccount(acc); err != nil {
+		panic("wire: " + err.Error())
+	}
+	c.Gas, c.CT, c.Value = 1<<40, vmcommon.DirectCall, big.NewInt(0)
+	r := w.Run(0, c.Clone())
+	out["res"] = r.Res
+	if r.Err != "" {
+		out["e"] = r.Err
+	}
+	if r.Panic != "" {
+		out["e"] = r.Panic
+	}
+	out["data"], out["parse"] = []int{}, Row{"cls": "skipped"}
+	cl := []string{}
+	if r.Res == "ok" {
+		found := false
+		if r.Out != nil {
+			if oa := r.Out.OutputAccounts[string(dst)]; oa != nil && len(oa.OutputTransfers) == 1 {
+				data := oa.OutputTransfers[0].Data
+				found = true
+				out["data"] = I(data)
+				p := parseCall(string(data))
+				out["parse"] = p
+				cl = append(cl, Cls(p))
+			}
+		}
+		if !found {
+			out["res"] = "nomsg"
+		}
+	}
+	out["cl"] = cl
+	nt := ""
+	if out["res"] == "ok" {
+		nt = sig("omsg", sub, tok, ctr, call)
+	}
+	return out, nt
+}
+
+// RandOMsg draws one: counters around the byte and half-byte boundaries, calls with zero to three arguments (empty ones too).
+func RandOMsg(r *rand.Rand) Row {
+	tok := []byte([]string{"TOK-1a2b3c", "N", "SFT-9"}[r.Intn(3)])
+	ctrs := []uint64{0, 1, 15, 16, 100, 255, 256, 257, 4095, 4096, 65535, 65536, 1048575, 1048576, 1 << 32, 1<<32 + 1}
+	ctr := new(big.Int).SetUint64(ctrs[r.Intn(len(ctrs))]).Bytes()
+	if r.Intn(4) == 0 {
+		ctr = new(big.Int).SetUint64(uint64(r.Int63())).Bytes()
+	}
+	if r.Intn(2) == 0 {
+		return Row{"k": "omsg", "src": "rand", "sub": "handover", "tok": I(tok), "ctr": I(ctr), "call": [][]int{}}
+	}
+	call := [][]byte{[]byte(strings.ReplaceAll(randName(r), "@", "a"))}
+	for n := r.Intn(4); n > 0; n-- {
+		call = append(call, randBytes(r, r.Intn(4)))
+	}
+	return Row{"k": "omsg", "src": "rand", "sub": "xcall", "tok": I(tok), "ctr": I(ctr), "call": II(call)}
 }
